@@ -44,7 +44,7 @@ func genRequests(t *rapid.T, w gen.World, o gen.Opts, lo, hi int) []m.Request {
 
 func genC01(t *rapid.T) C01Case {
 	o := worldOpts()
-	w := gen.GenWorld(t, o)
+	w := gen.AnyWorld(t, o)
 	return C01Case{World: w, Requests: genRequests(t, w, o, 4, 10)}
 }
 
